@@ -213,3 +213,11 @@ class PseudoInverseLemma(Contract):
                 "PyVC.cutoff_inverse_conditions": "lemma_cutoff_reciprocals_satisfy_the_penrose_hypotheses",
             },
         )
+
+
+from contracts.common import FunctionAxiomsBase  # noqa: E402
+
+
+class FunctionAxioms(FunctionAxiomsBase):
+    abstract = False
+    prop = "C13"
